@@ -632,8 +632,9 @@ impl<'a> ParserState<'a> {
             }
         } else {
             match text.parse::<f32>() {
-                Ok(num) => Ok(num),
-                Err(_) => Err(ParserError::malformed_number(self, context, text)),
+                // a literal that overflows to infinity has no representation when the file is written
+                Ok(num) if num.is_finite() => Ok(num),
+                _ => Err(ParserError::malformed_number(self, context, text)),
             }
         }
     }
@@ -654,8 +655,9 @@ impl<'a> ParserState<'a> {
             }
         } else {
             match text.parse::<f64>() {
-                Ok(num) => Ok(num),
-                Err(_) => Err(ParserError::malformed_number(self, context, text)),
+                // a literal that overflows to infinity has no representation when the file is written
+                Ok(num) if num.is_finite() => Ok(num),
+                _ => Err(ParserError::malformed_number(self, context, text)),
             }
         }
     }
